@@ -131,12 +131,15 @@ func assetLexable(a string) bool {
 	if a == "" {
 		return false
 	}
+	letter := false
 	for _, c := range a {
 		if !(c >= 'A' && c <= 'Z' || c >= '0' && c <= '9' || c == '/') {
 			return false
 		}
+		letter = letter || c >= 'A' && c <= 'Z'
 	}
-	return true
+	// without a letter the lexer reads a number ("2") or a portion ("1/2") first
+	return letter
 }
 
 func (r *resolver) truth(p pair) *big.Int {
